@@ -276,21 +276,30 @@ def gen_push_task(p):
             return f'{pad}(n, none)' if have == 'none' else seq(rest, ind, have)
         if isinstance(s, ast.Assign) and isinstance(s.value, ast.Call) \
                 and ast.unparse(s.value.func) == 'SnapshotServiceStub' and isinstance(s.targets[0], ast.Name):
-            return seq(rest, ind, have)
+            # building the stub calls into the channel: it can raise (channel gone / not a channel)
+            return (f'{pad}match stub with\n{pad}| some e => (n, some e)\n{pad}| none =>\n'
+                    + seq(rest, ind + 2, have))
         if isinstance(s, ast.Expr) and isinstance(s.value, ast.Call) and isinstance(s.value.func, ast.Attribute) \
                 and s.value.func.attr == 'send' and have != 'unknown':
             if not s.value.args or ast.unparse(s.value.args[0]) != 'converted':
                 raise Untranslatable('_push_task: send of something else than the converted snapshot: ' + src[:80])
-            return (f'{pad}let n := n + 1\n{pad}match send with\n{pad}| some e => (n, some e)\n'
-                    f'{pad}| none =>\n{seq(rest, ind + 2, have)}')
+            # the arguments are evaluated before `send` is entered: a raising `self.grpc.metadata()` is not a send
+            argcalls = [n for a in list(s.value.args) + [k.value for k in s.value.keywords] for n in ast.walk(a)
+                        if isinstance(n, ast.Call)]
+            pre = (f'{pad}match md with\n{pad}| some e => (n, some e)\n{pad}| none =>\n' if argcalls else '')
+            ind2 = ind + 2 if argcalls else ind
+            pad2 = ' ' * ind2
+            return (pre + f'{pad2}let n := n + 1\n{pad2}match send with\n{pad2}| some e => (n, some e)\n'
+                    f'{pad2}| none =>\n{seq(rest, ind2 + 2, have)}')
         if isinstance(s, ast.Return) and s.value is None:
             return f'{pad}(n, none)'
         raise Untranslatable('_push_task: statement outside the subset: ' + src[:80])
     return ('/-- what `convert_snapshot(snapshot)` gives -/\n'
             'inductive ConvOut where\n  | converted\n  | isNone\n  | raises (e : Py.Exn)\nderiving Repr, DecidableEq\n\n'
             '/-- `_push_task`, statement by statement: (send attempts made, the exception that leaves the task).\n'
-            '    `send` is what `stub.send` does (none = it returns) -/\n'
-            'def pushTask (conv : ConvOut) (send : Option Py.Exn) : Nat × Option Py.Exn :=\n'
+            '    `stub` = building `SnapshotServiceStub(channel)` raises, `md` = an argument of `stub.send`\n'
+            '    (`self.grpc.metadata()`) raises before `send` is entered, `send` = `stub.send` itself raises -/\n'
+            'def pushTask (conv : ConvOut) (stub md send : Option Py.Exn) : Nat × Option Py.Exn :=\n'
             '  let n := 0\n' + seq(body, 2, 'unknown') + '\n')
 
 
@@ -314,21 +323,51 @@ def _qualnames(tree):
     return out
 
 
+def _swallow_info(fdef, c, refusal, is_exc):
+    """(swallowed, logs) for the call `c` inside `fdef`: is it in the body of a `try` (of the same def) with an `except`
+    that matches the refusal class and does not raise again; does such a handler log at WARNING or above"""
+    swallowed, logs = False, False
+    for tr in [x for x in ast.walk(fdef) if isinstance(x, ast.Try)]:
+        if not any(c is y for b in tr.body for y in ast.walk(b)):
+            continue
+        for h in tr.handlers:
+            names = ([ast.unparse(e) for e in h.type.elts] if isinstance(h.type, ast.Tuple)
+                     else [ast.unparse(h.type)] if h.type is not None else ['BaseException'])
+            names = [n.split('.')[-1] for n in names]
+            match = (refusal in names or 'BaseException' in names or (is_exc and 'Exception' in names))
+            if match and not has_raise(h.body):
+                swallowed = True
+                logs = logs or any(isinstance(x, ast.Call) and isinstance(x.func, ast.Attribute)
+                                   and x.func.attr in WARN_LOGS and 'logging' in ast.unparse(x.func.value)
+                                   for b in h.body for x in ast.walk(b))
+    return swallowed, logs
+
+
+def _own_calls(fdef, pred):
+    calls = [n for n in ast.walk(fdef) if isinstance(n, ast.Call) and pred(n)]
+    nested = [x for x in ast.walk(fdef) if isinstance(x, (ast.FunctionDef, ast.AsyncFunctionDef, ast.Lambda))
+              and x is not fdef]
+    return [c for c in calls if not any(c in list(ast.walk(nd)) for nd in nested)]
+
+
 def gen_submitters(t):
-    """every call of `<something>.submit_task(...)` in src/deep — the in-tree submitters — and what each does with
-    the refusal a closed handler raises: is the call inside a `try` whose `except` matches that class, and if so does
-    the handler log at WARNING or above (or raise again)."""
+    """every call of `<something>.submit_task(...)` in src/deep — the in-tree submitters — and, ONE LEVEL UP, every
+    in-tree call of a function that contains such a call (by method / function name).  For each: is the call inside a
+    `try` of the same def whose `except` matches the refusal a closed handler raises and does not raise again, and does
+    that handler log at WARNING or above; for the sites also: is the call guarded by `if <receiver> is not None:`
+    without an `else` (no handler: the work is dropped without a word).
+    NOT seen (the dynamic `submitters` stream of the check is what covers them): callers two or more levels up,
+    aliases (`f = h.submit_task; f(..)`), getattr / functools.partial, contextlib.suppress, `try: … finally: return`."""
     import os
     import pylean
     root = os.path.join(pylean.REPO, 'src', 'deep')
-    # the refusal class and its ancestry inside task/__init__.py
     cf = find_def(t, 'TaskHandler.__check_open')
     exc = strip_doc(cf.body)[0].body[0].exc
     refusal = ast.unparse(exc.func if isinstance(exc, ast.Call) else exc)
     cls = [n for n in t.body if isinstance(n, ast.ClassDef) and n.name == refusal]
     bases = [ast.unparse(b) for b in cls[0].bases] if cls else []
     is_exc = bases == ['Exception']
-    sites = []
+    mods = []
     for dirpath, _, files in sorted(os.walk(root)):
         for fn in sorted(files):
             if not fn.endswith('.py'):
@@ -339,42 +378,46 @@ def gen_submitters(t):
                 tree = ast.parse(open(full, encoding='utf-8').read())
             except SyntaxError as e:
                 raise Untranslatable(f'{rel}: {e}')
-            quals = _qualnames(tree)
-            for qual, fdef in sorted(quals.values(), key=lambda q: q[1].lineno):
-                own = [n for n in ast.walk(fdef) if isinstance(n, ast.Call) and isinstance(n.func, ast.Attribute)
-                       and n.func.attr == 'submit_task']
-                # calls that belong to a nested def are listed under that def
-                nested = [x for x in ast.walk(fdef) if isinstance(x, (ast.FunctionDef, ast.AsyncFunctionDef, ast.Lambda))
-                          and x is not fdef]
-                own = [c for c in own if not any(c in list(ast.walk(nd)) for nd in nested)]
-                for c in own:
-                    swallowed, logs = False, False
-                    for tr in [x for x in ast.walk(fdef) if isinstance(x, ast.Try)]:
-                        if not any(c is y for b in tr.body for y in ast.walk(b)):
-                            continue
-                        for h in tr.handlers:
-                            names = ([ast.unparse(e) for e in h.type.elts] if isinstance(h.type, ast.Tuple)
-                                     else [ast.unparse(h.type)] if h.type is not None else ['BaseException'])
-                            names = [n.split('.')[-1] for n in names]
-                            match = (refusal in names or 'BaseException' in names or (is_exc and 'Exception' in names))
-                            if match and not has_raise(h.body):
-                                swallowed = True
-                                logs = logs or any(isinstance(x, ast.Call) and isinstance(x.func, ast.Attribute)
-                                                   and x.func.attr in WARN_LOGS
-                                                   and 'logging' in ast.unparse(x.func.value)
-                                                   for b in h.body for x in ast.walk(b))
-                    sites.append((rel, qual.replace('._TracepointConfigService__', '.__'), swallowed, logs))
+            mods.append((rel, sorted(_qualnames(tree).values(), key=lambda q: q[1].lineno)))
+    sites = []
+    for rel, quals in mods:
+        for qual, fdef in quals:
+            for c in _own_calls(fdef, lambda n: isinstance(n.func, ast.Attribute) and n.func.attr == 'submit_task'):
+                sw, lg = _swallow_info(fdef, c, refusal, is_exc)
+                recv = ast.unparse(c.func.value)
+                guard = any(isinstance(i, ast.If) and ast.unparse(i.test) == f'{recv} is not None' and not i.orelse
+                            and any(c is y for b in i.body for y in ast.walk(b)) for i in ast.walk(fdef))
+                sites.append((rel, qual, sw, lg, guard))
     if not sites:
         raise Untranslatable('no submit_task call site found in src/deep')
-    rows = ',\n   '.join(f'⟨{lean_str(r)}, {lean_str(q)}, {lean_bool(sw)}, {lean_bool(lg)}⟩' for r, q, sw, lg in sites)
-    return ('/-- a place in src/deep that hands work to the task handler (`….submit_task(…)`) -/\n'
+    names = {q.split('.')[-1] for _, q, _, _, _ in sites}
+    callers = []
+    for rel, quals in mods:
+        for qual, fdef in quals:
+            def calls_site(n):
+                f = n.func
+                return (isinstance(f, ast.Attribute) and f.attr in names) or (isinstance(f, ast.Name) and f.id in names)
+            for c in _own_calls(fdef, calls_site):
+                callee = c.func.attr if isinstance(c.func, ast.Attribute) else c.func.id
+                sw, lg = _swallow_info(fdef, c, refusal, is_exc)
+                callers.append((rel, f'{qual} -> {callee}', sw, lg))
+    row = lambda r, q, sw, lg, g: f'⟨{lean_str(r)}, {lean_str(q)}, {lean_bool(sw)}, {lean_bool(lg)}, {lean_bool(g)}⟩'   # noqa: E731
+    rows = ',\n   '.join(row(*x) for x in sites)
+    crow = ',\n   '.join(row(r, q, sw, lg, False) for r, q, sw, lg in callers)
+    return ('/-- a place in src/deep that hands work to the task handler (`….submit_task(…)`), or a call of such a function -/\n'
             'structure SubmitSite where\n  file : String\n  func : String\n'
-            '  /-- the call stands in a `try` whose `except` matches the refusal of a closed handler and does not raise again -/\n'
+            '  /-- the call stands in a `try` (of the same def) whose `except` matches the refusal of a closed handler and\n'
+            '      does not raise again -/\n'
             '  swallowsRefusal : Bool\n'
             '  /-- that handler logs at WARNING or above -/\n'
-            '  handlerLogs : Bool\nderiving Repr, DecidableEq\n\n'
+            '  handlerLogs : Bool\n'
+            '  /-- the call is guarded by `if <handler> is not None:` with no `else`: without a handler nothing happens -/\n'
+            '  noneGuard : Bool\nderiving Repr, DecidableEq\n\n'
             '/-- EVERY `submit_task` call site of src/deep (found by walking all modules), in path / source order -/\n'
-            f'def submitSites : List SubmitSite :=\n  [{rows}]\n')
+            f'def submitSites : List SubmitSite :=\n  [{rows}]\n\n'
+            '/-- one level up: every in-tree call (by name) of a function that contains a submit site, with what ITS def does\n'
+            '    around the call (`func` = "caller -> callee") -/\n'
+            f'def submitCallers : List SubmitSite :=\n  [{crow}]\n')
 
 
 def generate():
